@@ -241,7 +241,9 @@ func (f *Frame) frameObligations(fc *FuncContract, entry *State, ex *exitRec, en
 		r := T(ks, fmt.Sprintf("r!q%d", c.nfresh))
 		var conds []Term
 		if ks == SInt && (!strings.HasPrefix(k, "X|") || c.refKeyedGhost[k]) {
-			conds = append(conds, app(SBool, "<=", r, entry.alloc))
+			// (reference 0 is nil, not an object: a ghost attribute "of nil" written by a
+			// callee that was handed a nil argument is not part of any object's state)
+			conds = append(conds, app(SBool, "<", intLit(0), r), app(SBool, "<=", r, entry.alloc))
 		}
 		for _, o := range objs {
 			conds = append(conds, tNot(tEq(r, o)))
